@@ -15,8 +15,6 @@ hs = [
     H(P + "c42_history_2_nofail", timeout=1500, mem=16, covers=2,
       desc="two arbitrary paths made current one after the other: current()/current_relative() are the last path and push_directory - pop_directory equals the number of open directories",
       inputs="2 paths of 1..=3 components over two names, all combinations satisfying the documented precondition (no path a proper prefix of another)", bound="unwind 6; paths <= 3 components"),
-    H(P + "c42_history_3_nofail", tier="thorough", timeout=3000, mem=28, covers=2,
-      desc="same for three calls", inputs="3 paths of 1..=3 components over two names", bound="unwind 6"),
     H(P + "c42_rejected_2_paths", timeout=1500, mem=16, covers=2,
       desc="histories in which the delegate rejects one push() and/or one push_directory(): current() stays root joined with current_relative(), and after a successful call both are the last path",
       inputs="2 paths as above; rejection schedule symbolic (call numbers 1..=7)", bound="unwind 6"),
